@@ -14,10 +14,19 @@ Proof.
   - constructor; congruence.
 Qed.
 
-Lemma fs_write_spec f p q : fs_write f p q = true <-> (q = p \/ f q = true).
+Lemma fs_write_files f p q : is_file (fs_write f p q) = true <-> (q = p \/ is_file (f q) = true).
 Proof.
-  unfold fs_write. destruct (path_eqb_spec q p) as [->|Hne]; split; auto.
-  intros [H|H]; [congruence|assumption].
+  unfold fs_write. destruct (path_eqb_spec q p) as [->|Hne]; cbn [is_file].
+  - split; auto.
+  - destruct (f q) as [e|]; [tauto|]. destruct (path_in q (parents p)); cbn [is_file]; split; try tauto; try discriminate;
+      intros [H|H]; congruence.
+Qed.
+
+(* a directory after a write was a directory before or is a parent of the written path *)
+Lemma fs_write_dirs f p q : is_dir (fs_write f p q) = true -> is_dir (f q) = true \/ path_in q (parents p) = true.
+Proof.
+  unfold fs_write. destruct (path_eqb_spec q p) as [->|Hne]; cbn [is_dir]; [discriminate|].
+  destruct (f q) as [e|]; [tauto|]. destruct (path_in q (parents p)); cbn [is_dir]; [tauto|discriminate].
 Qed.
 
 Lemma genid_eqb_spec a b : genid_eqb a b = true <-> a = b.
@@ -54,7 +63,7 @@ Hypothesis HG : guards_ok k = true.
 
 Lemma leaf_guard_true g it : leaf_guard k g it = true.
 Proof.
-  unfold guards_ok in HG. rewrite !andb_true_iff in HG. destruct HG as [[H1 H2] H3].
+  unfold guards_ok in HG. rewrite !andb_true_iff in HG. destruct HG as [[[H1 H2] H3] _].
   unfold leaf_guard. destruct g; [assumption|]. destruct (it_j2 it); assumption.
 Qed.
 
@@ -80,17 +89,24 @@ Lemma gen_all_real g aow its : forall f acc f' gen,
   gen_all k c g false aow its f acc = (f', gen, Ok) ->
   (forall it, In it its -> item_template_ok c g it = true)
   /\ gen = acc ++ map it_path its
-  /\ (forall p, f' p = true <-> (f p = true \/ In p (map it_path its))).
+  /\ (forall p, is_file (f' p) = true <-> (is_file (f p) = true \/ In p (map it_path its)))
+  /\ (forall q, is_dir (f' q) = true -> is_dir (f q) = true \/ exists p, In p (map it_path its) /\ path_in q (parents p) = true).
 Proof.
   induction its as [|it r IH]; intros f acc f' gen H; cbn [gen_all map] in *.
-  - inversion H; subst. rewrite app_nil_r. split; [intros ? []|]. split; [reflexivity|]. intros p. cbn [In]. tauto.
+  - inversion H; subst. rewrite app_nil_r. split; [intros ? []|]. split; [reflexivity|]. split; [intros p; cbn [In]; tauto|].
+    intros q Hq. left; assumption.
   - destruct (item_template_ok c g it) eqn:Et; cbn [negb] in H; [|discriminate].
     rewrite leaf_guard_true in H. cbn [negb] in H.
-    destruct (f (it_path it) && negb aow); [discriminate|].
-    apply IH in H. destruct H as (Ha & Hb & Hc). split; [|split].
+    destruct (is_some (f (it_path it)) && negb aow); [discriminate|].
+    destruct (write_blocked f (it_path it)); [discriminate|].
+    apply IH in H. destruct H as (Ha & Hb & Hc & Hd). split; [|split; [|split]].
     + intros x [<-|Hx]; [assumption | apply Ha; assumption].
     + rewrite Hb, <- app_assoc. reflexivity.
-    + intros p. rewrite Hc, fs_write_spec. cbn [In]. intuition congruence.
+    + intros p. rewrite Hc, fs_write_files. cbn [In]. intuition congruence.
+    + intros q Hq. apply Hd in Hq. destruct Hq as [Hq|(p & Hp & Hq)].
+      * apply fs_write_dirs in Hq. destruct Hq as [Hq|Hq]; [left; assumption|].
+        right. exists (it_path it). split; [left; reflexivity|assumption].
+      * right. exists p. split; [right; assumption|assumption].
 Qed.
 End OneGenerator.
 
@@ -130,18 +146,22 @@ Lemma fold_real t : forallb is_real_gen t = true -> forall f out f' out',
   fold_left (step k c i) t (f, out, Ok) = (f', out', Ok) ->
   out' = out
   /\ (forall go, In go (gen_pairs t) -> templates_ok go)
-  /\ (forall p, f' p = true <-> (f p = true \/ exists go, In go (gen_pairs t) /\ In p (paths_of go))).
+  /\ (forall p, is_file (f' p) = true <-> (is_file (f p) = true \/ exists go, In go (gen_pairs t) /\ In p (paths_of go)))
+  /\ (forall q, is_dir (f' q) = true ->
+        is_dir (f q) = true \/ exists go p, In go (gen_pairs t) /\ In p (paths_of go) /\ path_in q (parents p) = true).
 Proof.
   induction t as [|a t IH]; intros Hall f out f' out' H; cbn [fold_left] in H.
-  - inversion H; subst. cbn. repeat split; try tauto. intros [?|(go & [] & _)]; assumption.
+  - inversion H; subst. cbn. split; [reflexivity|]. split; [intros ? []|]. split.
+    + intros p. split; [tauto|]. intros [?|(go & [] & _)]; assumption.
+    + intros q Hq. left; assumption.
   - cbn [forallb] in Hall. apply andb_true_iff in Hall. destruct Hall as [Ha Ht].
     destruct a as [g dry o|g o|al|g dry aow o e| |]; cbn [is_real_gen] in Ha; try discriminate.
     destruct dry; [discriminate|].
     unfold step at 2 in H. cbn [is_ok negb] in H.
     destruct (gen_all k c g false aow (items k c i g o) f []) as [[f1 g1] r1] eqn:E.
     destruct r1; try (rewrite fold_failed in H by reflexivity; discriminate).
-    apply (gen_all_real k c HG) in E. destruct E as (Ea & _ & Ec).
-    apply IH in H; [|assumption]. destruct H as (-> & Hb & Hc). split; [reflexivity|]. split.
+    apply (gen_all_real k c HG) in E. destruct E as (Ea & _ & Ec & Ed).
+    apply IH in H; [|assumption]. destruct H as (-> & Hb & Hc & Hd). split; [reflexivity|]. split; [|split].
     + cbn [gen_pairs flat_map app]. intros go [<-|Hgo]; [exact Ea | apply Hb; assumption].
     + intros p. rewrite Hc, Ec. cbn [gen_pairs flat_map app]. split.
       * intros [[Hf|Hin]|(go & Hgo & Hp)].
@@ -152,6 +172,10 @@ Proof.
         -- left; left; assumption.
         -- left; right; exact Hp.
         -- right. exists go. split; assumption.
+    + intros q Hq. apply Hd in Hq. cbn [gen_pairs flat_map app]. destruct Hq as [Hq|(go & p & Hgo & Hp & Hq)].
+      * apply Ed in Hq. destruct Hq as [Hq|(p & Hp & Hq)]; [left; assumption|].
+        right. exists (g, o), p. split; [left; reflexivity|]. split; assumption.
+      * right. exists go, p. split; [right; assumption|]. split; assumption.
 Qed.
 
 Lemma fold_list t : forallb is_list_gen t = true ->
@@ -205,13 +229,18 @@ Lemma reject_modes k c d o li : chk_stable k (c_flags c) = true ->
   = beval (c_flags c) false false false (k_reject k).
 Proof. intros H. destruct (chk_stable_spec k (c_flags c) d o li H) as [_ Hr]. exact Hr. Qed.
 
+Lemma path_effect_pure k c f : guards_ok k = true -> path_effect k c f = f.
+Proof.
+  intros HG. unfold guards_ok in HG. rewrite !andb_true_iff in HG. destruct HG as [_ H]. unfold path_effect. rewrite H. reflexivity.
+Qed.
+
 (* ---- theorem 1: listing and dry-run modes leave every file system unchanged ------------------ *)
 Theorem list_modes_pure_gen k : guards_ok k = true -> (forall fl nse, chk_pure k fl nse = true) ->
   forall c i f, (f_lo (c_flags c) || f_li (c_flags c) || f_lc (c_flags c) || f_dry (c_flags c)) = true ->
   fst (fst (run k c i f)) = f.
 Proof.
   intros HG Hchk c i f Hm. unfold run. destruct (beval (c_flags c) false false false (k_reject k)); [reflexivity|].
-  rewrite fold_pure; [reflexivity|assumption|].
+  rewrite fold_pure; [cbn [fst]; apply path_effect_pure; assumption|assumption|].
   specialize (Hchk (c_flags c) (nse_of k c)). unfold chk_pure in Hchk. rewrite Hm in Hchk. exact Hchk.
 Qed.
 
@@ -220,7 +249,9 @@ Theorem list_outputs_exact_gen k : guards_ok k = true -> (forall fl nse, chk_out
   (forall fl, chk_stable k fl = true) ->
   forall c i, f_lc (c_flags c) = false ->
   forall f' out', run k (real_of c) i fs_empty = (f', out', Ok) ->
-  forall f, exists out, run k (lo_of c) i f = (f, out, Ok) /\ (forall p, In p out <-> f' p = true).
+  forall f, exists out, run k (lo_of c) i f = (f, out, Ok)
+    /\ (forall p, In p out <-> is_file (f' p) = true)
+    /\ (forall q, is_dir (f' q) = true -> exists p, In p out /\ path_in q (parents p) = true).
 Proof.
   intros HG Hchk Hst c i Hlc f' out' Hreal f.
   specialize (Hchk (c_flags c) (nse_of k c)). unfold chk_outputs in Hchk. rewrite Hlc in Hchk.
@@ -230,8 +261,9 @@ Proof.
   unfold run, lo_of. rewrite (reject_modes k c _ true _ Hs).
   destruct (beval (c_flags c) false false false (k_reject k)); [discriminate|].
   rewrite trace_of_modes in *.
-  apply (fold_real k _ i HG _ Hr) in Hreal. destruct Hreal as (_ & Hok & Hfs).
-  eexists. split.
+  rewrite (path_effect_pure k _ _ HG) in Hreal. rewrite (path_effect_pure k _ _ HG).
+  apply (fold_real k _ i HG _ Hr) in Hreal. destruct Hreal as (_ & Hok & Hfs & Hdirs).
+  eexists. split; [|split].
   - apply (fold_list k _ i HG _ Hl).
     intros go Hgo. apply (pairs_incl_spec _ _ Hi2) in Hgo. specialize (Hok go Hgo).
     unfold templates_ok in *. intros it Hit. rewrite items_modes in Hit by assumption.
@@ -241,6 +273,10 @@ Proof.
       unfold paths_of in *. rewrite items_modes in Hp by assumption. rewrite items_modes by assumption. exact Hp.
     + intros [Hf|(go & Hgo & Hp)]; [discriminate|]. exists go. split; [apply (pairs_incl_spec _ _ Hi1); assumption|].
       unfold paths_of in *. rewrite items_modes in Hp by assumption. rewrite items_modes by assumption. exact Hp.
+  - intros q Hq. apply Hdirs in Hq. destruct Hq as [Hq|(go & p & Hgo & Hp & Hq)]; [discriminate|].
+    exists p. split; [|assumption]. cbn [app]. rewrite in_flat_map. exists go.
+    split; [apply (pairs_incl_spec _ _ Hi1); assumption|].
+    unfold paths_of in *. rewrite items_modes in Hp by assumption. rewrite items_modes by assumption. exact Hp.
 Qed.
 
 (* ---- theorem 3: list-inputs is complete away from the three triggers ------------------------- *)
@@ -293,17 +329,73 @@ Lemma listed_dep_sources_modes k c i d o li : chk_stable k (c_flags c) = true ->
   listed_dep_sources k (with_flags c (set_modes (c_flags c) d o li)) i = listed_dep_sources k c i.
 Proof. intros H. unfold listed_dep_sources, dsdl_influences. rewrite types_read_modes by assumption. reflexivity. Qed.
 
-Lemma loaded_not (P : tfile -> bool) ch names n tf :
-  existsb (fun n => match resolve_name ch n with Some f => P f | None => false end) names = false ->
-  In n names -> resolve_name ch n = Some tf -> P tf = false.
+(* ---- the derived template closure stays inside the loader chain -------------------------------- *)
+Lemma in_concat_chain (ch : list (list tfile)) f : In f (concat ch) <-> exists d, In d ch /\ In f d.
+Proof. rewrite in_concat. split; intros (d & H1 & H2); exists d; auto. Qed.
+
+Lemma resolve_names_in ch names f : In f (resolve_names ch names) -> In f (concat ch).
 Proof.
-  intros H Hn E. destruct (P tf) eqn:Ep; [|reflexivity]. exfalso.
-  assert (existsb (fun n => match resolve_name ch n with Some f => P f | None => false end) names = true).
-  { apply existsb_exists. exists n. split; [assumption|]. rewrite E. exact Ep. }
-  congruence.
+  unfold resolve_names. rewrite in_flat_map. intros (n & _ & H).
+  destruct (resolve_name ch n) as [g|] eqn:E; [|destruct H]. destruct H as [<-|[]].
+  apply resolve_name_in in E. apply in_concat_chain. exact E.
 Qed.
 
-Theorem list_inputs_partial_gen k : (forall fl nse, chk_inputs k fl nse = true) -> (forall fl, chk_stable k fl = true) ->
+Lemma class_files_in ch f : In f (class_files ch) -> In f (concat ch).
+Proof. unfold class_files. intros H. apply filter_In in H. apply H. Qed.
+
+Lemma step_refs_in ch f g : In g (step_refs ch f) -> In g (concat ch).
+Proof.
+  unfold step_refs. intros H. apply in_app_or in H. destruct H as [H|H]; [apply (resolve_names_in _ _ _ H)|].
+  destruct (tf_dyn f); [apply class_files_in; assumption|destruct H].
+Qed.
+
+Lemma closure_go_in ch : forall fuel todo visited,
+  (forall f, In f todo -> In f (concat ch)) -> (forall f, In f visited -> In f (concat ch)) ->
+  forall f, In f (closure_go ch fuel todo visited) -> In f (concat ch).
+Proof.
+  induction fuel as [|n IH]; intros todo visited Ht Hv f Hf; cbn [closure_go] in Hf; [apply Hv; assumption|].
+  destruct todo as [|g r]; [apply Hv; assumption|].
+  destruct (tfile_mem g visited).
+  - apply (IH r visited); auto. intros x Hx. apply Ht. right; assumption.
+  - apply (IH (step_refs ch g ++ r) (g :: visited)); auto.
+    + intros x Hx. apply in_app_or in Hx. destruct Hx as [Hx|Hx]; [apply (step_refs_in ch g x Hx) | apply Ht; right; assumption].
+    + intros x [<-|Hx]; [apply Ht; left; reflexivity | apply Hv; assumption].
+Qed.
+
+Lemma tpl_closure_in ch entries : (forall f, In f entries -> In f (concat ch)) ->
+  forall f, In f (tpl_closure ch entries) -> In f (concat ch).
+Proof. intros H f Hf. unfold tpl_closure in Hf. revert Hf. apply closure_go_in; auto. intros ? []. Qed.
+
+Lemma step_refs_none ch f : has_refs f = false -> step_refs ch f = [].
+Proof.
+  unfold has_refs, step_refs. destruct (tf_refs f); [|discriminate]. intros ->. reflexivity.
+Qed.
+
+(* templates without references load nothing further *)
+Lemma closure_go_norefs ch : forall fuel todo visited,
+  (forall f, In f todo -> has_refs f = false) ->
+  forall x, In x (closure_go ch fuel todo visited) -> In x todo \/ In x visited.
+Proof.
+  induction fuel as [|n IH]; intros todo visited Ht x Hx; cbn [closure_go] in Hx; [right; assumption|].
+  destruct todo as [|g r]; [right; assumption|].
+  destruct (tfile_mem g visited).
+  - destruct (IH r visited (fun f Hf => Ht f (or_intror Hf)) x Hx); [left; right; assumption | right; assumption].
+  - rewrite (step_refs_none ch g (Ht g (or_introl eq_refl))) in Hx. cbn [app] in Hx.
+    destruct (IH r (g :: visited) (fun f Hf => Ht f (or_intror Hf)) x Hx) as [H|[<-|H]];
+      [left; right; assumption | left; left; reflexivity | right; assumption].
+Qed.
+
+Lemma existsb_false_all {A} (P : A -> bool) l x : existsb P l = false -> In x l -> P x = false.
+Proof.
+  intros H Hx. destruct (P x) eqn:E; [|reflexivity]. exfalso.
+  assert (existsb P l = true) by (apply existsb_exists; exists x; auto). congruence.
+Qed.
+
+Lemma type_entries_in k c i f : In f (type_entries k c i) -> In f (concat (chain c GTypes)).
+Proof. unfold type_entries. intros H. apply filter_In in H. apply class_files_in. apply H. Qed.
+
+Theorem list_inputs_partial_gen k : guards_ok k = true -> (forall fl nse, chk_inputs k fl nse = true) ->
+  (forall fl, chk_stable k fl = true) ->
   forall c i, f_lc (c_flags c) = false ->
   beval (c_flags c) false false false (k_reject k) = false ->
   eff_trig_lookup k i = false -> eff_trig_tpl k c i = false -> eff_trig_sup k c = false ->
@@ -311,11 +403,12 @@ Theorem list_inputs_partial_gen k : (forall fl nse, chk_inputs k fl nse = true) 
   forall x, In x (influence_set k c i) ->
   forall f, exists out, run k (li_of c) i f = (f, out, Ok) /\ In x out.
 Proof.
-  intros Hchk Hst c i Hlc Hrej Hlk Hnj Hso Hsc x Hx f.
+  intros HG Hchk Hst c i Hlc Hrej Hlk Hnj Hso Hsc x Hx f.
   specialize (Hchk (c_flags c) (nse_of k c)). unfold chk_inputs in Hchk. rewrite Hlc in Hchk.
   apply andb_true_iff in Hchk. destruct Hchk as [Hshape Hcov].
   pose proof (Hst (c_flags c)) as Hs.
   unfold run, li_of. rewrite (reject_modes k c _ false true Hs), Hrej. rewrite trace_of_modes.
+  rewrite (path_effect_pure k _ _ HG).
   rewrite (fold_inputs k _ i _ Hshape). eexists. split; [reflexivity|]. cbn [app].
   unfold influence_set, real_of in Hx. rewrite trace_of_modes in Hx. apply in_flat_map in Hx. destruct Hx as (a & Ha & Hx).
   rewrite forallb_forall in Hcov. specialize (Hcov a Ha).
@@ -328,17 +421,17 @@ Proof.
   - (* type generator *)
     apply andb_true_iff in Hls. destruct Hls as [Hls Hld].
     apply in_app_or in Hx. destruct Hx as [Hx|Hx].
-    + (* a loaded template *)
+    + (* a template of the derived closure *)
       apply in_flat_map. exists (EListTemplates GTypes o). split; [assumption|]. cbn [listed_by listed_templates].
-      unfold resolved_paths in Hx. apply in_flat_map in Hx. destruct Hx as (n & Hn & Hx).
+      apply in_map_iff in Hx. destruct Hx as (tf & <- & Htf).
       change (chain (with_flags c (set_modes (c_flags c) (f_dry (c_flags c)) false true)) GTypes) with (chain c GTypes).
-      destruct (resolve_name (chain c GTypes) n) as [tf|] eqn:E; [|destruct Hx]. destruct Hx as [<-|[]].
       assert (Hl : listable k tf = true).
       { unfold eff_trig_tpl in Hnj. unfold listable. destruct (k_fix_nonj2 k).
-        - unfold trig_py in Hnj. rewrite (loaded_not tf_py _ _ n tf Hnj Hn E). reflexivity.
-        - unfold trig_nonj2 in Hnj. pose proof (loaded_not (fun f => negb (tf_j2 f)) _ _ n tf Hnj Hn E) as H0.
+        - unfold trig_py in Hnj. rewrite (existsb_false_all _ _ tf Hnj Htf). reflexivity.
+        - unfold trig_nonj2 in Hnj. pose proof (existsb_false_all _ _ tf Hnj Htf) as H0.
           cbn beta in H0. apply negb_false_iff in H0. exact H0. }
-      apply resolve_name_in in E. destruct E as (d & Hd & Hf).
+      unfold type_templates in Htf. apply (tpl_closure_in _ _ (type_entries_in k c i)) in Htf.
+      apply in_concat_chain in Htf. destruct Htf as (d & Hd & Hf).
       apply in_flat_map. exists d. split; [exact Hd|]. unfold listable_paths. apply in_map. apply filter_In. split; assumption.
     + (* a DSDL source *)
       unfold lists_sources in Hls. rewrite existsb_exists in Hls. destruct Hls as (b & Hb' & Hbe).
@@ -362,15 +455,30 @@ Proof.
            congruence.
   - (* support generator *)
     apply in_flat_map. exists (EListTemplates GSupport o). split; [assumption|]. cbn [listed_by listed_templates].
-    unfold resolved_paths in Hx. apply in_flat_map in Hx. destruct Hx as (n & Hn & Hx).
-    unfold support_loaded in Hn. apply in_map_iff in Hn. destruct Hn as (r & <- & Hr). apply filter_In in Hr. destruct Hr as [Hr Hj].
-    change (chain (with_flags c (set_modes (c_flags c) false false false)) GSupport) with (chain c GSupport) in Hx.
-    change (support_resources k (with_flags c (set_modes (c_flags c) false false false)) o) with (support_resources k c o) in Hr.
     change (support_resources k (with_flags c (set_modes (c_flags c) (f_dry (c_flags c)) false true)) o) with (support_resources k c o).
+    apply in_app_or in Hx. destruct Hx as [Hx|Hx].
+    2:{ (* a resource copied verbatim *)
+      unfold support_copied in Hx.
+      change (support_resources k (with_flags c (set_modes (c_flags c) false false false)) o) with (support_resources k c o) in Hx.
+      apply in_map_iff in Hx. destruct Hx as (r & <- & Hr). apply filter_In in Hr. destruct Hr as [Hr Hj].
+      apply in_map_iff. exists r. split; [|exact Hr]. unfold sup_listed_path.
+      apply negb_true_iff in Hj. rewrite Hj, andb_false_r. reflexivity. }
+    apply in_map_iff in Hx. destruct Hx as (tf & <- & Htf).
+    unfold eff_trig_sup in Hso. apply orb_false_iff in Hso. destruct Hso as [Hso Hrefs].
+    unfold trig_sup_refs in Hrefs. apply orb_false_iff in Hrefs. destruct Hrefs as [Hr0 Hr1].
+    unfold support_templates, tpl_closure in Htf.
+    change (chain (with_flags c (set_modes (c_flags c) false false false)) GSupport) with (chain c GSupport) in Htf.
+    assert (Hent : In tf (support_entries k c o)).
+    { change (support_entries k (with_flags c (set_modes (c_flags c) false false false)) o) with (support_entries k c o) in Htf.
+      apply closure_go_norefs in Htf.
+      - destruct Htf as [H|[]]; exact H.
+      - intros g Hg. destruct o; [apply (existsb_false_all _ _ g Hr1 Hg) | apply (existsb_false_all _ _ g Hr0 Hg)]. }
+    unfold support_entries, resolve_names in Hent. apply in_flat_map in Hent. destruct Hent as (n & Hn & Hx).
+    apply in_map_iff in Hn. destruct Hn as (r & <- & Hr). apply filter_In in Hr. destruct Hr as [Hr Hj].
     apply in_map_iff. exists r. split; [|exact Hr]. unfold sup_listed_path.
     change (chain (with_flags c (set_modes (c_flags c) (f_dry (c_flags c)) false true)) GSupport) with (chain c GSupport).
-    unfold eff_trig_sup in Hso. destruct (k_fix_suptpl k); cbn [negb andb orb] in Hso, Hsc |- *.
-    + rewrite Hj. destruct (resolve_name (chain c GSupport) (sr_name r)) as [tf|]; [|destruct Hx].
+    destruct (k_fix_suptpl k); cbn [negb andb orb] in Hso, Hsc |- *.
+    + rewrite Hj. destruct (resolve_name (chain c GSupport) (sr_name r)) as [tf'|]; [|destruct Hx].
       destruct Hx as [<-|[]]. reflexivity.
     + assert (Hmem : In r (l_sup_ser (c_lang c) ++ l_sup_type (c_lang c))).
       { unfold support_resources in Hr. apply in_flat_map in Hr. destruct Hr as (gr & _ & Hr).
@@ -385,21 +493,27 @@ Proof.
             congruence.
           + destruct (find_name (l_support_dir (c_lang c)) (sr_name r)); reflexivity.
         - cbn [resolve_name]. destruct (find_name (l_support_dir (c_lang c)) (sr_name r)); reflexivity. }
-      rewrite Hres in Hx. destruct (find_name (l_support_dir (c_lang c)) (sr_name r)) as [tf|]; [|discriminate].
-      destruct Hx as [<-|[]]. destruct (path_eqb_spec (tf_path tf) (sr_path r)) as [->|]; [reflexivity|discriminate].
+      rewrite Hres in Hx. destruct (find_name (l_support_dir (c_lang c)) (sr_name r)) as [tf'|]; [|discriminate].
+      destruct Hx as [<-|[]]. destruct (path_eqb_spec (tf_path tf') (sr_path r)) as [->|]; [reflexivity|discriminate].
 Qed.
 
-(* the full statement for a code that has the three repairs *)
-Theorem list_inputs_complete_gen k : (forall fl nse, chk_inputs k fl nse = true) -> (forall fl, chk_stable k fl = true) ->
+(* the full statement for a code that has the three repairs, over ALL inputs that influence the output including the
+   configuration files, which are excluded explicitly (they are neither templates nor DSDL files and are not listed) *)
+Theorem list_inputs_complete_gen k : guards_ok k = true -> (forall fl nse, chk_inputs k fl nse = true) ->
+  (forall fl, chk_stable k fl = true) ->
   k_fix_lookup k = true -> k_fix_nonj2 k = true -> k_fix_suptpl k = true ->
-  forall c i, f_lc (c_flags c) = false -> beval (c_flags c) false false false (k_reject k) = false -> trig_py c i = false ->
-  forall x, In x (influence_set k c i) ->
+  forall c i, f_lc (c_flags c) = false -> beval (c_flags c) false false false (k_reject k) = false ->
+  trig_py k c i = false -> trig_sup_refs k c = false ->
+  forall x, In x (all_influences k c i) -> is_config_input c x = false ->
   forall f, exists out, run k (li_of c) i f = (f, out, Ok) /\ In x out.
 Proof.
-  intros Hchk Hst H1 H2 H3 c i Hlc Hrej Hpy. apply (list_inputs_partial_gen k Hchk Hst c i Hlc Hrej).
+  intros HG Hchk Hst H1 H2 H3 c i Hlc Hrej Hpy Hrefs x Hx Hcfg.
+  unfold all_influences in Hx. apply in_app_or in Hx. destruct Hx as [Hx|Hx].
+  2:{ exfalso. unfold is_config_input in Hcfg. apply path_in_spec in Hx. congruence. }
+  clear Hcfg. revert x Hx. apply (list_inputs_partial_gen k HG Hchk Hst c i Hlc Hrej).
   - unfold eff_trig_lookup. rewrite H1. reflexivity.
   - unfold eff_trig_tpl. rewrite H2. exact Hpy.
-  - unfold eff_trig_sup. rewrite H3. reflexivity.
+  - unfold eff_trig_sup. rewrite H3, Hrefs. reflexivity.
   - rewrite H3. reflexivity.
 Qed.
 
